@@ -65,6 +65,9 @@ func execExclusiveT3(t *trace, script []string) {
 		var nkeys, ncalls, seed, variant int
 		if handover {
 			nkeys, ncalls, variant, seed = 1, 3, atoi(f[1]), atoi(f[2])
+			if variant&8 != 0 {
+				nkeys = 2 // call 2 goes to another key: nothing executes on key 0 after call 1 unless call 1 itself does
+			}
 		} else {
 			nkeys, ncalls, seed = atoi(f[1]), atoi(f[2]), atoi(f[3])
 		}
@@ -98,6 +101,14 @@ func execExclusiveT3(t *trace, script []string) {
 					c.style, c.behave = exStyleOpts, exBlockThenResolve
 					if variant&4 != 0 && i == 1 {
 						c.wait = 1
+					}
+					if variant&8 != 0 && i == 1 {
+						// call 1 is a Start: it has no outcome, so a Start that gives up on the stale item it fetched is only
+						// visible as "no execution began after it" (the harness-side lost-call monitor)
+						c.style = exStyleStart
+					}
+					if variant&8 != 0 && i == 2 {
+						c.key = 1
 					}
 				}
 			}
@@ -291,6 +302,7 @@ func execExclusiveT3(t *trace, script []string) {
 					}
 				}
 				wait := time.Duration(c.wait) * time.Millisecond
+				log.Add("invoke %d", i) // logged before the library is entered: the call begins here at the latest
 				switch c.style {
 				case exStyleCall:
 					v, err := e.Call(c.key, mkValue(i))
@@ -446,7 +458,30 @@ func execExclusiveT3(t *trace, script []string) {
 		time.Sleep(200 * time.Microsecond)
 		keys := bigbuff.VerifExclusiveKeys(&e)
 		rm()
-		for _, l := range log.Lines() {
+		lines := log.Lines()
+		if stuck == "" {
+			// harness-side monitor of C10's first sentence, independent of the model: every call (also a Start, which has no
+			// outcome) must be followed by an execution of its key that BEGAN after the call was made
+			lastFn := make([]int, nkeys) // position of the last "fn" line per key
+			for k := range lastFn {
+				lastFn[k] = -1
+			}
+			for pos, l := range lines {
+				var j, by int
+				if n, _ := fmt.Sscanf(l, "fn %d by=%d", &j, &by); n == 2 && j >= 0 && j < len(calls) {
+					lastFn[calls[j].key] = pos
+				}
+			}
+			for pos, l := range lines {
+				var i int
+				if n, _ := fmt.Sscanf(l, "invoke %d", &i); n == 1 && strings.HasPrefix(l, "invoke ") && i >= 0 && i < len(calls) {
+					if lastFn[calls[i].key] < pos {
+						lines = append(lines, fmt.Sprintf("unanswered %d", i))
+					}
+				}
+			}
+		}
+		for _, l := range lines {
 			t.Line(l, "ok")
 		}
 		if stuck != "" {
@@ -458,7 +493,7 @@ func execExclusiveT3(t *trace, script []string) {
 }
 
 func genExclusiveT3(r *rng.R, tier string, i int) []string {
-	if i < 8 {
+	if i < 16 {
 		return []string{fmt.Sprintf("handover %d %d", i, r.Intn(1<<30))}
 	}
 	keys := 1 + r.Intn(3)
